@@ -48,6 +48,10 @@ CONSTANTS
                    \*   force (`cmode`) is chosen initially: "none" (the code: no state), or a deviation:
                    \*   "payload" = payloads that passed the signature check once are accepted again without
                    \*   looking at the endpoints; "peer" = a remote peer id verified once is not verified again
+    AckCodeChoices,\* candidate mappings error kind -> ack code written by tryWriteErrAndClose for the errors
+                   \*   that are not HandshakeErrors: [over |-> code for ErrGotUnexpectedMessage (oversized
+                   \*   frame), bad |-> code for an unmarshal error].  The code: {[over |-> 1, bad |-> 1]}
+                   \*   (Error_Unexpected); a 0 (Error_Null) there is a deviation.  Chosen initially (`ackc`).
     Concurrent,    \* TRUE: sessions overlap arbitrarily; FALSE: session s starts after s-1 ended
     RecordHist     \* TRUE: keep the history variable (behaviour generation)
 
@@ -70,12 +74,16 @@ VARIABLES
     verified, \* state of the long-lived checkers: set of [c |-> side configuration, p |-> payload]
               \*   (checker c accepted the signature payload p on an earlier connection); only
               \*   maintained when cmode # "none"
+    ackc,     \* the error -> ack code mapping in force (constant during a behaviour), see AckCodeChoices
+    tpd,      \* tpd[e]: when e consumed its first malformed / truncated frame, Peer(e) no longer depended on e
+              \*   (see PeerIndependent: frame 4, or a peer that had read everything it reads)
+    sfaults,  \* sfaults[s]: adversary actions on session s so far
     nf,       \* faults used so far
     tampered, \* tampered[s] : a frame of session s was replaced / injected
     hist      \* history (behaviour generation only)
 
-vars == <<sess, st, chan, killed, pooled, resets, recorded, cmode, verified, nf, tampered, hist>>
-view == <<sess, st, chan, killed, pooled, resets, recorded, cmode, verified, nf, tampered>>
+vars == <<sess, st, chan, killed, pooled, resets, recorded, cmode, verified, ackc, tpd, sfaults, nf, tampered, hist>>
+view == <<sess, st, chan, killed, pooled, resets, recorded, cmode, verified, ackc, tpd, sfaults, nf, tampered>>
 
 Sides == {"O", "I"}
 Ends == Sessions \X Sides
@@ -171,7 +179,8 @@ Init ==
     /\ killed = [s \in Sessions |-> FALSE]
     /\ pooled = EmptyBag
     /\ resets \in ResetChoices
-    /\ recorded = {} /\ verified = {} /\ cmode \in CacheChoices
+    /\ recorded = {} /\ verified = {} /\ cmode \in CacheChoices /\ ackc \in AckCodeChoices
+    /\ tpd = [e \in Ends |-> FALSE] /\ sfaults = [s \in Sessions |-> 0]
     /\ nf = 0
     /\ tampered = [s \in Sessions |-> FALSE]
     /\ hist = <<>>
@@ -186,12 +195,18 @@ FinishSt(e, v, close) ==
                                 !.obj = ZeroObj, !.got = 0]]
 Released(e, o) == pooled' = pooled (+) SetToBag({Rel(o)})
 
+\* x has taken its decision: it will not read from the connection any more
+Decided(x) == st[x].pc \in {"done", "ewack"} \/ (x[2] = "I" /\ st[x].pc = "wack")
+\* the peer of e no longer depends on e: it has decided, or e is the initiator waiting for the last ack
+\* (its own ack, on which the responder decides, is already on the wire)
+PeerIndependent(e) == Decided(Peer(e)) \/ (e[2] = "O" /\ st[e].pc = "rack")
+
 (* ------------------------------ worker actions ------------------------- *)
 \* a connection is established: both ends know the peer ids (TLS), each end has its configuration
 Open(s) ==
     /\ ~Opened(s) /\ \A s2 \in Sessions : s2 < s => Opened(s2)
     /\ \E d \in SessionSpace[s] : sess' = [sess EXCEPT ![s] = d]
-    /\ UNCHANGED <<st, chan, killed, pooled, nf, tampered, hist, resets, recorded, verified, cmode>>
+    /\ UNCHANGED <<st, chan, killed, pooled, nf, tampered, hist, resets, recorded, verified, cmode, ackc, tpd, sfaults>>
 
 \* newHandshake(): handshakePool.Get() finds nothing usable -> New()
 StartPc(e) == IF e[2] = "O" THEN "wcred" ELSE "rcred"
@@ -199,7 +214,7 @@ AcquireFresh(e) ==
     /\ st[e].pc = "idle" /\ MayStart(e[1])
     /\ st' = [st EXCEPT ![e] = [@ EXCEPT !.pc = StartPc(e), !.obj = ZeroObj]]
     /\ Log([a |-> "Acquire", s |-> e[1], side |-> e[2], fresh |-> TRUE, o |-> ZeroObj])
-    /\ UNCHANGED <<sess, chan, killed, pooled, nf, tampered, resets, recorded, verified, cmode>>
+    /\ UNCHANGED <<sess, chan, killed, pooled, nf, tampered, resets, recorded, verified, cmode, ackc, tpd, sfaults>>
 
 \* newHandshake(): handshakePool.Get() returns any object that was put back
 AcquirePooled(e) ==
@@ -208,7 +223,7 @@ AcquirePooled(e) ==
          /\ pooled' = pooled (-) SetToBag({o})
          /\ st' = [st EXCEPT ![e] = [@ EXCEPT !.pc = StartPc(e), !.obj = o]]
          /\ Log([a |-> "Acquire", s |-> e[1], side |-> e[2], fresh |-> FALSE, o |-> o])
-    /\ UNCHANGED <<sess, chan, killed, nf, tampered, resets, recorded, verified, cmode>>
+    /\ UNCHANGED <<sess, chan, killed, nf, tampered, resets, recorded, verified, cmode, ackc, tpd, sfaults>>
 
 WFrame(e) == CASE st[e].pc = "wcred" -> MakeCred(e)
                [] st[e].pc = "wack"  -> Ack(0)
@@ -232,7 +247,7 @@ WriteOk(e) ==
               /\ Released(e, st[e].obj)
     /\ recorded' = IF st[e].pc = "wcred" THEN recorded \cup {WFrame(e)} ELSE recorded
     /\ Log([a |-> "Write", s |-> e[1], side |-> e[2], f |-> WFrame(e), ok |-> TRUE])
-    /\ UNCHANGED <<sess, killed, nf, tampered, resets, verified, cmode>>
+    /\ UNCHANGED <<sess, killed, nf, tampered, resets, verified, cmode, ackc, tpd, sfaults>>
 
 \* a Write on a dead connection fails; so does the error ack; Close; release
 WriteFail(e) ==
@@ -240,7 +255,7 @@ WriteFail(e) ==
     /\ st' = FinishSt(e, IF st[e].pc = "ewack" THEN st[e].werr ELSE "io", TRUE)
     /\ Released(e, st[e].obj)
     /\ Log([a |-> "Write", s |-> e[1], side |-> e[2], f |-> WFrame(e), ok |-> FALSE])
-    /\ UNCHANGED <<sess, chan, killed, nf, tampered, resets, recorded, verified, cmode>>
+    /\ UNCHANGED <<sess, chan, killed, nf, tampered, resets, recorded, verified, cmode, ackc, tpd, sfaults>>
 
 CanRecv(e) == /\ st[e].pc \in ReadPcs /\ chan[e] # <<>>
               /\ ~st[e].stalled /\ ~killed[e[1]] /\ ~st[e].closed
@@ -264,7 +279,7 @@ Process(e, f) ==
     LET s0 == st[e]
         tnt == s0.taint \/ Malformed(e, f) IN
     IF f.sz = "bad" THEN                                   \* UnmarshalVT error -> ack Unexpected
-        ToErrAck(e, s0.obj, 1, "unmarshal", s0.wire, tnt)
+        ToErrAck(e, s0.obj, ackc.bad, "unmarshal", s0.wire, tnt)
     ELSE IF f.t = "cred" THEN
         LET o == MergeCred(s0.obj, f)
             ck == Check(e, o) IN
@@ -311,7 +326,7 @@ Recv(e, q) ==
                       /\ st' = [FinishSt(e, He(3), TRUE) EXCEPT ![e].taint = TRUE]
                       /\ Released(e, st[e].obj)
                   ELSE IF f.sz = "over" THEN                  \* ErrGotUnexpectedMessage -> ack Unexpected
-                      ToErrAck(e, st[e].obj, 1, "notHandshake", st[e].wire, TRUE)
+                      ToErrAck(e, st[e].obj, ackc.over, "notHandshake", st[e].wire, TRUE)
                   ELSE Process(e, f)
        /\ Log([a |-> "Recv", s |-> e[1], side |-> e[2], q |-> q, f |-> f])
     \* the checker remembers a signature payload it accepted (only in the deviating model)
@@ -319,7 +334,9 @@ Recv(e, q) ==
                       /\ st[e].pc \in {"rcred", "rmsg"} /\ st'[e].pc \in {"wcred", "wack"}
                    THEN verified \cup {[c |-> Cfg(e), p |-> CacheKey(st'[e].obj.pay, Cfg(Peer(e)).pid)]}
                    ELSE verified
-    /\ UNCHANGED <<sess, killed, nf, tampered, resets, recorded, cmode>>
+    \* remember whether the peer had already finished when this end first consumed a malformed frame
+    /\ tpd' = [tpd EXCEPT ![e] = IF ~st[e].taint /\ st'[e].taint THEN PeerIndependent(e) ELSE @]
+    /\ UNCHANGED <<sess, killed, nf, tampered, resets, recorded, cmode, ackc, sfaults>>
 
 \* Read on a dead connection: EOF / closed -> error ack fails too -> Close, release
 ReadDeadCond(e) ==
@@ -331,7 +348,7 @@ ReadDead(e) ==
     /\ st' = FinishSt(e, "io", TRUE)
     /\ Released(e, st[e].obj)
     /\ Log([a |-> "ReadDead", s |-> e[1], side |-> e[2]])
-    /\ UNCHANGED <<sess, chan, killed, nf, tampered, resets, recorded, verified, cmode>>
+    /\ UNCHANGED <<sess, chan, killed, nf, tampered, resets, recorded, verified, cmode, ackc, tpd, sfaults>>
 
 CanStep(e) == \/ st[e].pc = "idle" /\ MayStart(e[1])
               \/ st[e].pc \in WritePcs
@@ -346,7 +363,7 @@ Deadline(e) ==
     /\ st' = FinishSt(e, "ctx", TRUE)
     /\ Released(e, st[e].obj)
     /\ Log([a |-> "Deadline", s |-> e[1], side |-> e[2]])
-    /\ UNCHANGED <<sess, chan, killed, nf, tampered, resets, recorded, verified, cmode>>
+    /\ UNCHANGED <<sess, chan, killed, nf, tampered, resets, recorded, verified, cmode, ackc, tpd, sfaults>>
 
 (* ------------------------------ adversary / faults --------------------- *)
 Tag(f, t) == [f EXCEPT !.tag = t]
@@ -387,7 +404,8 @@ Adv_Replace(e) ==
          /\ chan' = [chan EXCEPT ![e] = <<f2>> \o Tail(@)]
          /\ Log([a |-> "Replace", s |-> e[1], side |-> e[2], f |-> f2])
     /\ nf' = nf + 1 /\ tampered' = [tampered EXCEPT ![e[1]] = TRUE]
-    /\ UNCHANGED <<sess, st, killed, pooled, resets, recorded, verified, cmode>>
+    /\ sfaults' = [sfaults EXCEPT ![e[1]] = @ + 1]
+    /\ UNCHANGED <<sess, st, killed, pooled, resets, recorded, verified, cmode, ackc, tpd>>
 
 \* an unsolicited frame while the reader waits and nothing is in flight
 Injections(e) ==
@@ -401,7 +419,8 @@ Adv_Inject(e) ==
          /\ chan' = [chan EXCEPT ![e] = <<f2>>]
          /\ Log([a |-> "Inject", s |-> e[1], side |-> e[2], f |-> f2])
     /\ nf' = nf + 1 /\ tampered' = [tampered EXCEPT ![e[1]] = TRUE]
-    /\ UNCHANGED <<sess, st, killed, pooled, resets, recorded, verified, cmode>>
+    /\ sfaults' = [sfaults EXCEPT ![e[1]] = @ + 1]
+    /\ UNCHANGED <<sess, st, killed, pooled, resets, recorded, verified, cmode, ackc, tpd>>
 
 \* truncation: the rest of the frame in flight (beyond what e consumed) never arrives; the reader
 \* has consumed a truncated frame iff it already consumed a part of it
@@ -411,7 +430,9 @@ Adv_Stall(e) ==
     /\ st' = [st EXCEPT ![e] = [@ EXCEPT !.stalled = TRUE, !.taint = @ \/ st[e].got > 0]]
     /\ nf' = nf + 1
     /\ Log([a |-> "Stall", s |-> e[1], side |-> e[2], got |-> st[e].got])
-    /\ UNCHANGED <<sess, chan, killed, pooled, tampered, resets, recorded, verified, cmode>>
+    /\ sfaults' = [sfaults EXCEPT ![e[1]] = @ + 1]
+    /\ tpd' = [tpd EXCEPT ![e] = IF ~st[e].taint /\ st[e].got > 0 THEN PeerIndependent(e) ELSE @]
+    /\ UNCHANGED <<sess, chan, killed, pooled, tampered, resets, recorded, verified, cmode, ackc>>
 
 \* the transport is cut: nothing in flight is delivered any more
 Adv_Kill(s) ==
@@ -420,7 +441,8 @@ Adv_Kill(s) ==
     /\ killed' = [killed EXCEPT ![s] = TRUE]
     /\ nf' = nf + 1
     /\ Log([a |-> "Kill", s |-> s, side |-> "-"])
-    /\ UNCHANGED <<sess, st, chan, pooled, tampered, resets, recorded, verified, cmode>>
+    /\ sfaults' = [sfaults EXCEPT ![s] = @ + 1]
+    /\ UNCHANGED <<sess, st, chan, pooled, tampered, resets, recorded, verified, cmode, ackc, tpd>>
 
 \* context cancelled at a frame boundary (or inside a frame): like Deadline, at any time
 Adv_Cancel(e) ==
@@ -430,7 +452,8 @@ Adv_Cancel(e) ==
     /\ Released(e, st[e].obj)
     /\ nf' = nf + 1
     /\ Log([a |-> "Cancel", s |-> e[1], side |-> e[2]])
-    /\ UNCHANGED <<sess, chan, killed, tampered, resets, recorded, verified, cmode>>
+    /\ sfaults' = [sfaults EXCEPT ![e[1]] = @ + 1]
+    /\ UNCHANGED <<sess, chan, killed, tampered, resets, recorded, verified, cmode, ackc, tpd>>
 
 SysNext == \/ \E s \in Sessions : Open(s)
            \/ \E e \in Ends : \/ AcquireFresh(e) \/ AcquirePooled(e) \/ WriteOk(e) \/ WriteFail(e)
@@ -487,6 +510,13 @@ ReplayRejected ==
 \* an end that consumed a truncated / oversized / out-of-order / garbage frame never succeeds
 FaultNeverSuccess == \A e \in Ends : st[e].taint => ~Ok(e)
 
+\* ... and neither does its peer ("an error or deadline on BOTH sides"): the end that hits the malformed frame
+\* answers with an error ack or just closes, and its peer is still waiting for a reply - unless the peer no
+\* longer depended on it (PeerIndependent: the malformed frame stands for frame 4, the responder's last ack).  Stated for sessions whose only fault is
+\* that frame (a second fault could forge the success of the peer).
+CorruptionEndsBoth ==
+    \A e \in Ends : (st[e].taint /\ ~tpd[e] /\ sfaults[e[1]] = 1) => ~Ok(Peer(e))
+
 \* without faults nobody needs the deadline and nobody sees an I/O error
 NoFaultClean == nf = 0 => \A e \in Ends : st[e].verdict \notin {"ctx", "io", "unmarshal", "notHandshake"}
 
@@ -510,5 +540,5 @@ PoolClean == resets = AllFields => \A o \in BagToSet(pooled) : o = ZeroObj
 Terminates == <>[]AllDone
 
 Inv == /\ TypeOK /\ Agreement /\ SuccessSound /\ MutualGating /\ ReplayRejected
-       /\ FaultNeverSuccess /\ NoFaultClean /\ Completeness /\ PoolAccounting /\ PoolClean
+       /\ FaultNeverSuccess /\ CorruptionEndsBoth /\ NoFaultClean /\ Completeness /\ PoolAccounting /\ PoolClean
 =============================================================================
